@@ -143,7 +143,15 @@ func c08Judge(c *mon.Ctx, in *progInput) {
 		i0.PreviousTxScript = bscript.NewFromBytes(append([]byte{}, in.Lock...))
 		exp.Inputs = []*bt.Input{&i0, other}
 		extExpect = exp.ExtendedBytes()
-		opts = append(opts, interpreter.WithTx(tx, 0, prev))
+		if in.Ctx.NilUnlock {
+			inp.UnlockingScript = nil
+			txBefore = tx.Bytes()
+			i0.UnlockingScript = nil
+			extExpect = exp.ExtendedBytes()
+			opts = append(opts, interpreter.WithTx(tx, 0, prev), interpreter.WithScripts(lock, unlock))
+		} else {
+			opts = append(opts, interpreter.WithTx(tx, 0, prev))
+		}
 	} else {
 		opts = append(opts, interpreter.WithScripts(lock, unlock))
 	}
@@ -166,6 +174,9 @@ func c08Judge(c *mon.Ctx, in *progInput) {
 		c.Violationf("C08:caller-data:locking-script-modified:"+e, "locking script bytes changed by Execute: before %x after %x (unlock %x, flags %#x)", []byte(in.Lock), lbuf, []byte(in.Unlock), in.Flags)
 	}
 	if tx != nil {
+		if in.Ctx.NilUnlock && tx.Inputs[0].UnlockingScript != nil {
+			c.Violationf("C08:caller-data:unlocking-script-written-to-input:"+e, "the checked input had no unlocking script before Execute(WithTx, WithScripts) and carries %x afterwards", []byte(*tx.Inputs[0].UnlockingScript))
+		}
 		if after := tx.Bytes(); !bytes.Equal(after, txBefore) {
 			c.Violationf("C08:caller-data:tx-serialisation-modified:"+e, "tx.Bytes() changed by Execute: before %x after %x", txBefore, after)
 		}
@@ -177,6 +188,9 @@ func c08Judge(c *mon.Ctx, in *progInput) {
 			// allowed alternative: nothing recorded at all (execution refused before set-up finished)
 			plain := &bt.Tx{Version: tx.Version, LockTime: tx.LockTime, Outputs: tx.Outputs}
 			i0 := &bt.Input{PreviousTxOutIndex: 3, SequenceNumber: in.Ctx.Sequence, UnlockingScript: bscript.NewFromBytes(append([]byte{}, in.Unlock...))}
+			if in.Ctx.NilUnlock {
+				i0.UnlockingScript = nil
+			}
 			_ = i0.PreviousTxIDAdd(append([]byte{}, fixedTxID...))
 			plain.Inputs = []*bt.Input{i0, tx.Inputs[1]}
 			if !bytes.Equal(ext, plain.ExtendedBytes()) {
@@ -337,7 +351,7 @@ func init() {
 			for xi, x := range xf {
 				for _, operand := range c08Operands {
 					for _, fl := range []uint32{0, uint32(scriptflag.UTXOAfterGenesis)} {
-						for variant := 0; variant < 3; variant++ {
+						for variant := 0; variant < 4; variant++ {
 							n++
 							if !c.Case(n) {
 								continue
@@ -352,6 +366,9 @@ func init() {
 							case 2: // scripts only
 								in.Lock = prog
 								in.Ctx.HasTx = false
+							case 3: // unsigned transaction (no unlocking script on the input) + scripts handed over separately
+								in.Unlock, in.Lock = pv.build(operand), x.ops(operand)
+								in.Ctx.NilUnlock = true
 							}
 							judge(c, &in)
 							c.Count(fmt.Sprintf("matrix:%s:%s", provs[pi].name, xf[xi].name))
@@ -434,6 +451,9 @@ func init() {
 			ctx.HasTx = !r.Chance(1, 4)
 			if !ctx.HasTx { // CSV needs a tx for the parser to accept the script
 				fl &^= uint32(scriptflag.VerifyCheckLockTimeVerify | scriptflag.VerifyCheckSequenceVerify)
+			}
+			if ctx.HasTx && r.Chance(1, 6) {
+				ctx.NilUnlock = true
 			}
 			judge(c, &progInput{Unlock: u, Lock: l, Flags: fl, Ctx: ctx, Src: "random"})
 		}
